@@ -21,6 +21,7 @@ Missing beyond that: the real collector and finalizer timing, `mmap` address reu
 -/
 import Wz.Proofs.C09_Graph
 import Wz.Proofs.C09_Pinned
+import Wz.Gen.Cleanup
 
 namespace Wz.C09
 open Wz.Model.Lifetime
@@ -198,5 +199,18 @@ set_option maxRecDepth 100000 in
 example : validKeep (runW (W.init .compiler false false) (f7History.take 7)).g
     (preciseKeep (runW (W.init .compiler false false) (f7History.take 7)).g) = true := by
   decide
+
+
+/-! ### what Close releases -/
+
+/-- **Regenerated obligation** (`ModuleInstance.ensureResourcesClosed`): closing an instance releases only what
+no code that is still able to run can reach - the close notifier, the system context (file descriptors), the
+externally allocated memory buffer's handle and the code closer.  It does not clear tables, globals, the memory
+instance, the engine, or the data/element instances: a closed instance's functions still run when a live
+instance imported them or holds them in a table (those are the `perm` edges of the model; a seeded change that
+nil-ed `DataInstances`/`ElementInstances` "to save memory" made `memory.init` in an imported function read freed
+memory). -/
+theorem close_releases_only_unreachable_resources :
+    Wz.Gen.Cleanup.closedFields = ["m.CloseNotifier", "m.Sys", "mem.expBuffer", "m.CodeCloser"] := by decide
 
 end Wz.C09
